@@ -248,11 +248,71 @@ func rewindRule(R string) RuleFunc {
 		fresh := false
 		for _, st := range d.Decl.Body.List { // unconditional: a top-level statement of rewind
 			if as, ok := st.(*ast.AssignStmt); ok && len(as.Lhs) == 1 && core.ExprStr(as.Lhs[0]) == "d.scanner" {
-				if call, ok := as.Rhs[0].(*ast.CallExpr); ok && core.ExprStr(call.Fun) == "newScanner" {
+				// a constructor of the package: a function that returns a *scanner and allocates it (directly or through another constructor)
+				if call, ok := as.Rhs[0].(*ast.CallExpr); ok && isScannerCtor(c, d.Pkg, call, 0) {
 					fresh = true
 				}
 			}
 		}
 		c.Check(fresh, R, "(*formats/json.Document).rewind:fresh", c.P.Pos(d.Decl.Pos()), "rewind() installs newScanner(...)", "rewind re-uses a scanner object: whatever its reset forgets (pending lexemes, flags) leaks into the next operation")
 	}
+}
+
+// isScannerCtor: the call goes to a function of the package that returns a freshly allocated scanner
+// (`&scanner{...}` / new(scanner), or the result of another such constructor).
+func isScannerCtor(c *core.Ctx, pk *packagesPackage, call *ast.CallExpr, depth int) bool {
+	if depth > 2 {
+		return false
+	}
+	f, ok := core.Callee(pk, call).(*types.Func)
+	if !ok || f.Pkg() == nil || f.Pkg().Path() != pk.PkgPath {
+		return false
+	}
+	d := c.P.FindDecl(core.Rel(f.FullName()))
+	if d == nil || d.Decl.Body == nil {
+		return false
+	}
+	fresh, n := true, 0
+	ast.Inspect(d.Decl.Body, func(nd ast.Node) bool {
+		if _, isLit := nd.(*ast.FuncLit); isLit {
+			return false
+		}
+		r, isR := nd.(*ast.ReturnStmt)
+		if !isR || len(r.Results) != 1 {
+			return true
+		}
+		n++
+		switch x := ast.Unparen(r.Results[0]).(type) {
+		case *ast.UnaryExpr:
+			if _, isCL := ast.Unparen(x.X).(*ast.CompositeLit); !(x.Op == token.AND && isCL) {
+				fresh = false
+			}
+		case *ast.CallExpr:
+			if core.ExprStr(x.Fun) != "new" && !isScannerCtor(c, d.Pkg, x, depth+1) {
+				fresh = false
+			}
+		case *ast.Ident:
+			// a local that was assigned a composite literal / constructor result
+			if def := findDef(d.Pkg, d.Pkg.TypesInfo.ObjectOf(x)); def != nil {
+				switch y := ast.Unparen(def).(type) {
+				case *ast.UnaryExpr:
+					if _, isCL := ast.Unparen(y.X).(*ast.CompositeLit); !(y.Op == token.AND && isCL) {
+						fresh = false
+					}
+				case *ast.CallExpr:
+					if core.ExprStr(y.Fun) != "new" && !isScannerCtor(c, d.Pkg, y, depth+1) {
+						fresh = false
+					}
+				default:
+					fresh = false
+				}
+			} else {
+				fresh = false
+			}
+		default:
+			fresh = false
+		}
+		return true
+	})
+	return fresh && n > 0
 }
